@@ -6,7 +6,7 @@
    flow that reopens the window (so that whatever was held back must appear).  Ids start at 0, in
    the middle of the range and two below 2^32 (Shift). *)
 EXTENDS Integers, Sequences, TLC, Json
-CONSTANTS Depth, Shift, Win0, Mms
+CONSTANTS Depth, Shift, Win0, Mms, Side     \* Side: "client" | "listener"
 
 Alphabet == {"SendS", "SendM", "SendL", "SendL2", "Flow0", "Flow1", "Flow2", "Flow3", "Flow2Lag", "Flow2Unset", "In", "InBig"}
 VARIABLES script, nsend, nin
@@ -19,16 +19,20 @@ Next == \E e \in Alphabet : Step(e)
 Spec == Init /\ [][Next]_vars
 
 PFlow(nii, iw) == [e |-> "PFrame", perf |-> "flow", ch |-> 3, ech |-> 0, f |-> [nii |-> nii, iw |-> iw, noi |-> 7, ow |-> 100]]
-Prefix == <<
-  [e |-> "Shifts", out |-> Shift, inn |-> 0, dc_out |-> 0, dc_in |-> 0],
-  [e |-> "AOpen", cfg |-> [mfs |-> 512]], [e |-> "PHeader", kind |-> "amqp"],
-  [e |-> "PFrame", perf |-> "open", ch |-> 0, f |-> [mfs |-> 512, chmax |-> 10]],
-  [e |-> "ABegin", s |-> "s1", cfg |-> [noi |-> 1000, iw |-> 4, ow |-> 50]],
-  [e |-> "PFrame", perf |-> "begin", ch |-> 3, f |-> [rch |-> [ref |-> "s1"], noi |-> 7, iw |-> Win0, ow |-> 100]],
-  [e |-> "AAttachS", l |-> "L1", s |-> "s1", cfg |-> [snd |-> 1, rcv |-> 0, idc |-> 0]],
+Conn == IF Side = "client"
+        THEN << [e |-> "AOpen", cfg |-> [mfs |-> 512]], [e |-> "PHeader", kind |-> "amqp"], [e |-> "PFrame", perf |-> "open", ch |-> 0, f |-> [mfs |-> 512, chmax |-> 10]],
+                [e |-> "ABegin", s |-> "s1", cfg |-> [noi |-> 1000, iw |-> 4, ow |-> 50]],
+                [e |-> "PFrame", perf |-> "begin", ch |-> 3, f |-> [rch |-> [ref |-> "s1"], noi |-> 7, iw |-> Win0, ow |-> 100]] >>
+        ELSE << [e |-> "AAccept", cfg |-> [mfs |-> 512]], [e |-> "PHeader", kind |-> "amqp"], [e |-> "PFrame", perf |-> "open", ch |-> 0, f |-> [mfs |-> 512, chmax |-> 10]],
+                [e |-> "AAcceptSession", s |-> "s1", cfg |-> [noi |-> 1000, iw |-> 4, ow |-> 50]],
+                [e |-> "PFrame", perf |-> "begin", ch |-> 3, f |-> [rch |-> -1, noi |-> 7, iw |-> Win0, ow |-> 100]] >>
+AttS == IF Side = "client" THEN [e |-> "AAttachS", l |-> "L1", s |-> "s1", cfg |-> [snd |-> 1, rcv |-> 0, idc |-> 0]] ELSE [e |-> "AAcceptLink", l |-> "L1", s |-> "s1", cfg |-> [idc |-> 0]]
+AttR == IF Side = "client" THEN [e |-> "AAttachR", l |-> "L2", s |-> "s1", cfg |-> [snd |-> 1, rcv |-> 0, credit |-> 50, auto_accept |-> TRUE]] ELSE [e |-> "AAcceptLink", l |-> "L2", s |-> "s1", cfg |-> [credit |-> 50]]
+Prefix == << [e |-> "Shifts", out |-> Shift, inn |-> 0, dc_out |-> 0, dc_in |-> 0] >> \o Conn \o <<
+  AttS,
   [e |-> "PFrame", perf |-> "attach", ch |-> 3, f |-> [name |-> "L1", h |-> 5, role |-> "r", snd |-> 1, rcv |-> 0, mms |-> IF Mms > 0 THEN Mms ELSE -1]],
   [e |-> "PFrame", perf |-> "flow", ch |-> 3, ech |-> 0, f |-> [nii |-> [seen |-> 0], iw |-> Win0, noi |-> 7, ow |-> 100, h |-> 5, dc |-> 0, lc |-> 100]],
-  [e |-> "AAttachR", l |-> "L2", s |-> "s1", cfg |-> [snd |-> 1, rcv |-> 0, credit |-> 50, auto_accept |-> TRUE]],
+  AttR,
   [e |-> "PFrame", perf |-> "attach", ch |-> 3, f |-> [name |-> "L2", h |-> 6, role |-> "s", snd |-> 1, rcv |-> 0, idc |-> 0]] >>
 \* message numbers: sends 1.., incoming 101..
 RECURSIVE Body(_, _, _, _)
@@ -50,5 +54,5 @@ Body(sc, i, ns, ni) ==
                           msg |-> [m |-> 101 + ni, len |-> 600, off |-> 300, n |-> -1]]>> \o Body(sc, i + 1, ns, ni + 1)
 Suffix == << PFlow([seen |-> 0], 50), PFlow([seen |-> 0], 50), [e |-> "PFrame", perf |-> "flow", ch |-> 3, ech |-> 0, f |-> [nii |-> [seen |-> 0], iw |-> 50, noi |-> 7, ow |-> 100, echo |-> TRUE]] >>
 Done == Len(script) = Depth
-Emit == Done => PrintT(<<"SCRIPT", ToJson([side |-> "client", id |-> <<Shift, Win0>> \o script, ev |-> Prefix \o Body(script, 1, 0, 0) \o Suffix])>>)
+Emit == Done => PrintT(<<"SCRIPT", ToJson([side |-> Side, id |-> <<Side, Shift, Win0>> \o script, ev |-> Prefix \o Body(script, 1, 0, 0) \o Suffix])>>)
 =============================================================================
